@@ -12,9 +12,9 @@ import gen_sha  # noqa: E402
 PROPERTIES = ["C17"]
 MANIFEST = {
     "C17": {
-        "technique": "Lean 4 proof (model of Sha256.cpp/Sha256.hpp whose constants, macro bodies AND function bodies - Transform in all three build configurations, reset, WriteByteBlock, update, finalize - are re-translated from the current sources on every run, proved equal to FIPS 180-4 / RFC 2104 written independently) + differential correspondence real code (built in up to three configurations) vs model vs Python hashlib/hmac",
-        "text": "Kernel-checked theorems for ALL messages, chunkings and keys: the generated K/H0 are the constants of the standard (defined as cube/square roots of the first primes, roots proved exact), the generated macro bodies S0 S1 s0 s1 Ch Maj are the functions of FIPS 4.1.2, the GENERATED body of Transform (copy loops, j/i loops, macro R over the rolling 16-word window and the rotating register index) equals the FIPS compression function for every chaining value, block and initial content of its uninitialised locals, and so do the generated Transform bodies of the two other build configurations of the sources (-D_SHA256_UNROLL: RX_8 of eight R(i+k); -D_SHA256_UNROLL2: eight scalar registers, nine-parameter macro R with permuted arguments) - transform_unroll_eq, transform_unroll2_eq; the bodies of reset, WriteByteBlock, update and finalize translated from the sources (typed statement translator) are proved equal to the model functions for every object state and input (generated_bodies_are_the_model; reset: every object with its eight state words), and update/finalize over any list of chunks equals the FIPS digest of the concatenation (streaming, streaming_generated; one- and two-block padding cases); beyond the standard's 2^61-byte limit and below 2^64 bytes the code is proved to compute the FIPS formula with the low 64 bits of the bit length (streaming_up_to_2_64, length_field_wraps); the hasher is reusable after construction/finalize/reset, a hasher copied mid-stream and its original continue independently (copy_midstream), the byte<->word conversions are big-endian for every buffer content without alignment/endianness assumptions (byte_word_assembly_is_big_endian), Sha256::hmac equals RFC 2104 for keys shorter than, equal to and longer than the block size.  Tie to the current sources on every run: tables, header constants, macro bodies and the function bodies are re-translated (g++ -E -dD, g++ -E -dD -fdirectives-only, C parser + emitters) and all theorems are re-checked over them; the model driver EXECUTES the translated update/finalize/Transform against the real code (ASan/UBSan) on identical op lines - all lengths 0..300 x all 2-way splits, lengths 0..70 x all 3-way splits, sampled 3-way splits with interleaved reset/finalize, copies mid-stream (copy constructor/assignment), lengths to 70000, keys 0..200 (quick tier: seed-chosen slices), single Transform calls on arbitrary chaining values (white box) - on the harness built from the sources as they are and again with -D_SHA256_UNROLL2 and -D_SHA256_UNROLL; every digest is also compared with Python hashlib/hmac; two further streams pass empty inputs as (nullptr, 0) and preset `count` (white box) to multiples of 64 up to 2^64-64.",
-        "note": "Trusted: Lean kernel + the three standard axioms; the translator tools/gen_sha.py (C parser, macro emitter, function-body emitters; it refuses what it cannot translate faithfully in the macros and in Transform - unsequenced side effects, aliasing macro arguments, non-constant loop bounds; its output is executed by the driver in the correspondence run); the conventions of the body translation (input byte range = list, output pointer = appended bytes, Nat counters for constant-bound for loops, zeros for a callee's uninitialised locals - proved irrelevant for Transform, iteration budget 2^32 for the padding while loop - proved never exhausted).  A body of reset/WriteByteBlock/update/finalize that is outside the translated C subset is NOT an alarm: the function falls back to the hand-written model function for that run (tie = correspondence run only, as for hash/hmac/reset) and coverage.translated_bodies says so; on the unchanged tree all four are translated.  Hand-modelled, validated by the correspondence run only: hash, hmac, the glue of Model.lean; my transcription of FIPS 180-4 / RFC 2104 in Spec.lean (kernel-evaluated on the NIST 'abc', empty, two-block vectors and RFC 4231 cases 1 and 6, and compared with Python hashlib/hmac through the driver on every run: tests).  The three configurations are generated from a scratch copy of Sha256.cpp in which a source-level #define _SHA256_UNROLL[2] is blanked (the only textual preprocessing not left to g++); the _MSC_VER branch of rotlFixed/rotrFixed is not compiled and not modelled.  Memory abstraction: C arrays are Lean lists; every write goes through a checked `wr` that destroys the array on an out-of-range index, every read is recorded in a ghost flag `ok` that the model carries and the driver reports as FAULT; the theorems hold for all inputs and include ok = true (the harness additionally runs the real code under ASan with the hashers in exactly sized heap blocks).  Copying: the model's objects are values, so copy_midstream holds by construction in the model; that the C++ implicit copy is member-wise is tied by the ops fork/assign/swap.  Hypotheses of the theorems: fewer than 2^61 bytes per digest for the statements against FIPS (= its 2^64-bit limit); streaming_up_to_2_64 covers 2^61..2^64-1 bytes (wrapped length field); from 2^64 bytes on `count` itself wraps - no theorem.  No theorem is partial; there is no OPEN statement.",
+        "technique": "Lean 4 proof (model of Sha256.cpp/Sha256.hpp whose constants, macro bodies AND function bodies - Transform in all three build configurations, reset, WriteByteBlock, update, finalize, hash - are re-translated from the current sources on every run, proved equal to FIPS 180-4 / RFC 2104 written independently) + differential correspondence real code (built in up to three configurations) vs model vs Python hashlib/hmac",
+        "text": "Kernel-checked theorems for ALL messages, chunkings and keys: the generated K/H0 are the constants of the standard (defined as cube/square roots of the first primes, roots proved exact), the generated macro bodies S0 S1 s0 s1 Ch Maj are the functions of FIPS 4.1.2, the GENERATED body of Transform (copy loops, j/i loops, macro R over the rolling 16-word window and the rotating register index) equals the FIPS compression function for every chaining value, block and initial content of its uninitialised locals, and so do the generated Transform bodies of the two other build configurations of the sources (-D_SHA256_UNROLL: RX_8 of eight R(i+k); -D_SHA256_UNROLL2: eight scalar registers, nine-parameter macro R with permuted arguments) - transform_unroll_eq, transform_unroll2_eq; the bodies of reset, WriteByteBlock, update, finalize and the static helper hash translated from the sources (typed statement translator) are proved equal to the model functions for every object state and input (generated_bodies_are_the_model; reset: every object with its eight state words), and update/finalize over any list of chunks equals the FIPS digest of the concatenation (streaming, streaming_generated; one- and two-block padding cases); beyond the standard's 2^61-byte limit and below 2^64 bytes the code is proved to compute the FIPS formula with the low 64 bits of the bit length (streaming_up_to_2_64, length_field_wraps); the hasher is reusable after construction/finalize/reset, a hasher copied mid-stream and its original continue independently (copy_midstream), the byte<->word conversions are big-endian for every buffer content without alignment/endianness assumptions (byte_word_assembly_is_big_endian), Sha256::hmac equals RFC 2104 for keys shorter than, equal to and longer than the block size.  Tie to the current sources on every run: tables, header constants, macro bodies and the function bodies are re-translated (g++ -E -dD, g++ -E -dD -fdirectives-only, C parser + emitters) and all theorems are re-checked over them; the model driver EXECUTES the translated update/finalize/Transform against the real code (ASan/UBSan) on identical op lines - all lengths 0..300 x all 2-way splits, lengths 0..70 x all 3-way splits, sampled 3-way splits with interleaved reset/finalize, copies mid-stream (copy constructor/assignment), lengths to 70000, keys 0..200 (quick tier: seed-chosen slices), single Transform calls on arbitrary chaining values (white box) - on the harness built from the sources as they are and again with -D_SHA256_UNROLL2 and -D_SHA256_UNROLL; every digest is also compared with Python hashlib/hmac; two further streams pass empty inputs as (nullptr, 0) and preset `count` (white box) to multiples of 64 up to 2^64-64.",
+        "note": "Trusted: Lean kernel + the three standard axioms; the translator tools/gen_sha.py (C parser, macro emitter, function-body emitters; it refuses what it cannot translate faithfully in the macros and in Transform - unsequenced side effects, aliasing macro arguments, non-constant loop bounds; its output is executed by the driver in the correspondence run); the conventions of the body translation (input byte range = list, output pointer = appended bytes, Nat counters for constant-bound for loops, zeros for a callee's uninitialised locals - proved irrelevant for Transform, iteration budget 2^32 for the padding while loop - proved never exhausted).  A body of reset/WriteByteBlock/update/finalize/hash that is outside the translated C subset is NOT an alarm: the function falls back to the hand-written model function for that run (tie = correspondence run only, as for hmac) and coverage.translated_bodies says so; on the unchanged tree all five are translated.  Hand-modelled, validated by the correspondence run only: hmac (its body is not translated: local arrays, Memory::copy/zero with pointer arithmetic, reference cast), the glue of Model.lean; my transcription of FIPS 180-4 / RFC 2104 in Spec.lean (kernel-evaluated on the NIST 'abc', empty, two-block vectors and RFC 4231 cases 1 and 6, and compared with Python hashlib/hmac through the driver on every run: tests).  The three configurations are generated from a scratch copy of Sha256.cpp in which a source-level #define _SHA256_UNROLL[2] is blanked (the only textual preprocessing not left to g++); the _MSC_VER branch of rotlFixed/rotrFixed is not compiled and not modelled.  Memory abstraction: C arrays are Lean lists; every write goes through a checked `wr` that destroys the array on an out-of-range index, every read is recorded in a ghost flag `ok` that the model carries and the driver reports as FAULT; the theorems hold for all inputs and include ok = true (the harness additionally runs the real code under ASan with the hashers in exactly sized heap blocks).  Copying: the model's objects are values, so copy_midstream holds by construction in the model; that the C++ implicit copy is member-wise is tied by the ops fork/assign/swap.  Hypotheses of the theorems: fewer than 2^61 bytes per digest for the statements against FIPS (= its 2^64-bit limit); streaming_up_to_2_64 covers 2^61..2^64-1 bytes (wrapped length field); from 2^64 bytes on `count` itself wraps - no theorem.  No theorem is partial; there is no OPEN statement.",
         "design_ref": "DESIGN.md 3/C17",
     }
 }
